@@ -5,12 +5,11 @@ From TxV Require Import Core.Base Model.PegSyntax Model.Peg.
 Definition is_unord (k : kind) : bool := match k with KUnord => true | _ => false end.
 Definition node_ctx_free (nd : node) : bool :=
   match n_ws nd, n_skipws nd with
-  | None, None => negb (n_eolterm nd) && negb (is_unord (n_kind nd))
+  | None, None => negb (n_eolterm nd)
   | _, _ => false
   end.
 
-(* no node changes the whitespace context, and there is no comment model
-   (partial: unordered groups are also excluded, see design/C19.md) *)
+(* no node changes the whitespace context, and there is no comment model *)
 Definition ctx_constant (g : grammar) : bool :=
   forallb node_ctx_free (g_nodes g) && match g_comments g with None => true | Some _ => false end.
 
